@@ -55,6 +55,16 @@ def universe(tier):
         plans.append(dict(n=2, efforts=(1, 2, 3), allocs=("r1", "r2", "team"), prios=(300, 500, 700), Ls=(60, 30, 15), effs=(1.0, 0.5), extra=True))
         plans.append(dict(n=3, efforts=(1, 3), allocs=("r1", "r2", "team"), prios=(500, 700), Ls=(60,), effs=(1.0,), extra=False))
         plans.append(dict(n=4, efforts=(1, 2), allocs=("r1",), prios=(500, 700), Ls=(60,), effs=(1.0,), extra=False, chains=True))
+    # container predecessors: two tasks inside container g, a third task depending on g, declared after or before it
+    for wrap in ("before", "after"):
+        for ef in itertools.product((1, 3), repeat=3):
+            for al in (("r1", "r1", "r1"), ("r1", "r2", "r1"), ("r2", "r2", "r1")):
+                for pr in itertools.product((500, 700), repeat=3):
+                    for es in ((), ((0, 1),), ((1, 0),)):
+                        for gap in (0, 2):
+                            for lim in (None, ("r", "dailymax", "2h")):
+                                yield {"n": 3, "L": 60, "eff": 1.0, "ef": ef, "al": al, "es": es, "pr": pr, "gap": gap, "pin": None,
+                                       "leave": False, "lim": lim, "z": None, "wrap": wrap}
     for pl in plans:
         n = pl["n"]
         if pl.get("chains"):
@@ -104,6 +114,16 @@ def to_spec(it):
         r1["hours"] = [("mon - fri", ["13:00 - 21:00"])]
         r1["tz"] = it["z"]
     resources = [r1, r2]
+    if it.get("wrap"):
+        # the first n-1 tasks live in a container g; the last task depends on the CONTAINER (plus the listed edges)
+        inner = tasks[:-1]
+        for t in tasks:
+            for d in t.get("deps") or []:
+                if d["ref"] in [x["id"] for x in inner]:
+                    d["ref"] = "g." + d["ref"]
+        last = tasks[-1]
+        last.setdefault("deps", []).append({"ref": "g"} if not it["gap"] else {"ref": "g", "gap": f"{it['gap'] * L}min"})
+        tasks = [{"id": "g", "children": inner}, last] if it["wrap"] == "before" else [last, {"id": "g", "children": inner}]
     lim = it["lim"]
     if lim:
         where, kind, val = lim
@@ -161,7 +181,7 @@ def run(ctx):
     explore(ctx, universe(ctx.tier), "mc.props.c07:evaluate", st, payload=payload, sample_of=sample)
     common.vacuity_guard(ctx, st)
     cov = st.coverage(
-        "complete product universe: n tasks x efforts x allocation per task x every acyclic edge set (<= 2 edges, either declaration "
+        "container-predecessor projects (two tasks in a container, a third depending on the container, either declaration order) + complete product universe: n tasks x efforts x allocation per task x every acyclic edge set (<= 2 edges, either declaration "
         "direction; n=4: chains/diamonds/fans) x priority vectors x gap x pinned task x leave x limit (x zone, resolution, efficiency in "
         "thorough); states = distinct schedule observations; transitions = placements + bookings of the real scheduler; non-trivial = "
         "the reference schedule does not start all tasks at the same instant (contention, a dependency, a pin, a leave or a limit was active) or leaves a task unscheduled")
